@@ -75,6 +75,26 @@ macro_rules! wrappers {
         row!($v, "DynGuard", DynGuard<$K>, $K, $kn, $pn, $sn);
         row!($v, "Constant", Constant<$K>, $K, $kn, $pn, $sn);
         row!($v, "AccessConvert<Box<dyn>>", AccessConvert<Box<dyn DynAccess<$K>>>, $K, $kn, $pn, $sn);
+        // the same wrappers projecting to a thread-safe target: what they *store* still decides
+        row!($v, "MapGuard->u32", MapGuard<Guard<$K, $S>, fn(&$K) -> &u32, $K, u32>, $K, $kn, $pn, $sn);
+        row!($v, "Map<&_>->u32", Map<&'static ArcSwapAny<$K, $S>, $K, fn(&$K) -> &u32>, $K, $kn, $pn, $sn);
+        row!($v, "Map<Arc<_>>->u32", Map<Arc<ArcSwapAny<$K, $S>>, $K, fn(&$K) -> &u32>, $K, $kn, $pn, $sn);
+        row!($v, "MapCache->u32", MapCache<&'static ArcSwapAny<$K, $S>, $K, fn(&$K) -> &u32>, $K, $kn, $pn, $sn);
+    };
+}
+/// type-erased guards / accessors: what they box is unknown, so they may never be Send or Sync,
+/// whatever the target type is (the stored pointer is modelled as "not thread-safe")
+macro_rules! erased_row {
+    ($v:ident, $wn:expr, $W:ty, $pn:expr) => {
+        $v.push(Row { wrapper: $wn, kind: "(erased)", pointee: $pn, strategy: "-", w_send: P::<$W>::SEND, w_sync: P::<$W>::SYNC, k_send: false, k_sync: false, src: stringify!($W).to_string() });
+    };
+}
+macro_rules! erased {
+    ($v:ident, $Pt:ty, $pn:expr) => {
+        erased_row!($v, "DynGuard<target>", DynGuard<$Pt>, $pn);
+        erased_row!($v, "Box<dyn DynAccess<target>>", Box<dyn DynAccess<$Pt>>, $pn);
+        erased_row!($v, "AccessConvert<Box<dyn DynAccess<target>>>", AccessConvert<Box<dyn DynAccess<$Pt>>>, $pn);
+        erased_row!($v, "MapGuard<DynGuard<target>>", MapGuard<DynGuard<$Pt>, fn(&$Pt) -> &$Pt, $Pt, $Pt>, $pn);
     };
 }
 macro_rules! strategies {
@@ -101,10 +121,16 @@ pub fn table() -> Vec<Row> {
     kinds!(v, Cell<u32>, "Send+!Sync");
     kinds!(v, NotSendSync, "!Send+Sync");
     kinds!(v, Neither, "!Send+!Sync");
+    erased!(v, u32, "Send+Sync");
+    erased!(v, String, "Send+Sync (String)");
+    erased!(v, Arc<u32>, "Send+Sync (Arc<u32>)");
+    erased!(v, Cell<u32>, "Send+!Sync");
+    erased!(v, NotSendSync, "!Send+Sync");
+    erased!(v, Neither, "!Send+!Sync");
     v
 }
 
-const PRINCIPAL: &[&str] = &["ArcSwapAny", "Guard", "Cache<&_>", "Cache<Arc<_>>", "Map<&_>", "Map<Arc<_>>", "MapGuard", "MapCache"];
+const PRINCIPAL: &[&str] = &["ArcSwapAny", "Guard", "Cache<&_>", "Cache<Arc<_>>", "Map<&_>", "Map<Arc<_>>", "MapGuard", "MapCache", "MapGuard->u32", "Map<&_>->u32", "Map<Arc<_>>->u32", "MapCache->u32"];
 
 /// the reference rule; returns the violations
 pub fn check(rows: &[Row]) -> Vec<String> {
